@@ -237,6 +237,99 @@ def _build(spec):
     return f
 
 
+def write_m3io(spec, path):
+    """the file the Models-3 I/O API library itself writes for this spec
+    (netCDF classic, 64-bit offset): int32 header integers, float64 grid
+    reals, float32 VGLVLS, 16-character name fields, TFLAG first, TSTEP
+    the record dimension.  Written with netCDF4 directly - independent of the
+    library's writers."""
+    import netCDF4
+    arrs = arrays(spec)
+    nt, nz, ny, nx = spec['nt'], spec['nz'], spec['ny'], spec['nx']
+    names = list(spec['names'])
+    ds = netCDF4.Dataset(path, 'w', format='NETCDF3_64BIT_OFFSET')
+    try:
+        ds.createDimension('TSTEP', None)
+        ds.createDimension('DATE-TIME', 2)
+        ds.createDimension('LAY', nz)
+        ds.createDimension('VAR', len(names))
+        if spec['kind'] == 'grid':
+            ds.createDimension('ROW', ny)
+            ds.createDimension('COL', nx)
+            vdims = ('TSTEP', 'LAY', 'ROW', 'COL')
+        else:
+            ds.createDimension('PERIM', 2 * (ny + nx) + 4)
+            vdims = ('TSTEP', 'LAY', 'PERIM')
+        ds.IOAPI_VERSION = '$Id: @(#) ioapi library version 3.1 $'.ljust(80)
+        ds.EXEC_ID = '?' * 16 + ' ' * 64
+        ds.FTYPE = np.int32(1 if spec['kind'] == 'grid' else 2)
+        ds.CDATE = np.int32(2020001)
+        ds.CTIME = np.int32(120000)
+        ds.WDATE = np.int32(2020001)
+        ds.WTIME = np.int32(120000)
+        ds.SDATE = np.int32(spec['sdate'])
+        ds.STIME = np.int32(spec['stime'])
+        ds.TSTEP = np.int32(spec['tstep'])
+        ds.NTHIK = np.int32(1)
+        ds.NCOLS = np.int32(nx)
+        ds.NROWS = np.int32(ny)
+        ds.NLAYS = np.int32(nz)
+        ds.NVARS = np.int32(len(names))
+        ds.GDTYP = np.int32(2)
+        ds.P_ALP = np.float64(33.)
+        ds.P_BET = np.float64(45.)
+        ds.P_GAM = np.float64(-97.)
+        ds.XCENT = np.float64(-97.)
+        ds.YCENT = np.float64(40.)
+        ds.XORIG = np.float64(spec['xorig'])
+        ds.YORIG = np.float64(spec['yorig'])
+        ds.XCELL = np.float64(spec['xcell'])
+        ds.YCELL = np.float64(spec['ycell'])
+        ds.VGTYP = np.int32(7)
+        ds.VGTOP = np.float32(5000.)
+        ds.VGLVLS = np.array(spec['vglvls'], dtype='f4')
+        ds.GDNAM = 'VERIFGRID'.ljust(16)
+        ds.UPNAM = 'PNCMON'.ljust(16)
+        ds.setncattr('VAR-LIST', ''.join(n.ljust(16) for n in names))
+        ds.FILEDESC = 'reference file written by pncmon'.ljust(80)
+        ds.HISTORY = ''
+        tf = ds.createVariable('TFLAG', 'i4', ('TSTEP', 'VAR', 'DATE-TIME'))
+        tf.units = '<YYYYDDD,HHMMSS>'
+        tf.long_name = 'TFLAG'.ljust(16)
+        tf.var_desc = ('Timestep-valid flags:  (1) YYYYDDD or (2) HHMMSS'
+                       ).ljust(80)
+        vs = {}
+        for n in names:
+            v = ds.createVariable(n, 'f4', vdims)
+            v.long_name = n.ljust(16)
+            v.units = 'ppmV'.ljust(16)
+            v.var_desc = ('Variable ' + n).ljust(80)
+            vs[n] = v
+        dt = tstep_seconds(spec['tstep'])
+        for i in range(nt):
+            d_, t_ = jd_add(spec['sdate'], spec['stime'], i * dt)
+            tf[i, :, 0] = d_
+            tf[i, :, 1] = t_
+            for n in names:
+                vs[n][i] = np.ma.getdata(arrs[n])[i]
+    finally:
+        ds.close()
+
+
+def open_m3io(spec, d, h, name='m3io.nc'):
+    """-> the IOAPI file of this spec as the I/O API library writes it,
+    opened with the library's ioapi reader (None when the spec has features
+    such a file cannot carry)"""
+    import os
+    import PseudoNetCDF as pnc
+    if spec.get('via') == 'uamiv' or spec.get('scalar') or \
+            spec.get('withcf') or any(len(n) > 16 for n in spec['names']):
+        return None
+    path = os.path.join(d, name)
+    write_m3io(spec, path)
+    return h.keep(pnc.pncopen(path, format='ioapi'))
+
+
 def expected_times(spec, n=None):
     """list of (Y,M,D,h,m,s) for each time step by integer arithmetic"""
     n = spec['nt'] if n is None else n
